@@ -23,10 +23,13 @@ PROPERTY = 'C02'
 
 CENTRE_CONFIGS = [
     ('CFGrid1D', {}), ('CFGrid1D', {'as_coords': False}), ('CFGrid2D', {}), ('CFGrid2D', {'as_coords': False}),
-    ('CFGrid2D', {'lon_transposed': True, 'bounds': True}),
-    ('ShocSimple', {'bounds': True}), ('ShocStandard', {}),
+    # latitude / longitude as auxiliary 1-D coordinates that are not named after their dimensions: lat(y), lon(x)
+    ('CFGrid1D', {'ydim': 'y', 'xdim': 'x'}), ('CFGrid1D', {'ydim': 'y', 'xdim': 'x', 'as_coords': False, 'detect': 'standard_name'}),
+    ('CFGrid2D', {'lon_transposed': True, 'bounds': True}), ('CFGrid2D', {'lon_transposed': True}),
+    ('ShocSimple', {'bounds': True}), ('ShocStandard', {}), ('ShocStandard', {'x_transposed': ('face', 'node')}),
     ('UGridMesh', {'face_coords': True, 'maxn': 4, 'fill': 'int_fill'}),
     ('UGridMesh', {'face_coords': True, 'maxn': 4, 'fill': 'int_fill', 'coords_as': 'coords'}),
+    ('UGridMesh', {'face_coords': True, 'maxn': 4, 'fill': 'int_fill', 'latitude_first': True}),
 ]
 KIND_CONFIGS = [
     ('CFGrid1D', {}, ['face']), ('CFGrid2D', {}, ['face']), ('ShocStandard', {}, ['face', 'left', 'back', 'node']),
@@ -37,10 +40,11 @@ KIND_CONFIGS = [
 def scenarios(tier):
     out = []
     # polygons: one configuration per convention / encoding family (the full set runs under C06)
-    for gi in (0, 3, 4, 8, 9):
+    for gi in (0, 3, 4, 8, 9, 11, 12, 14):
         out.append({'name': f'polygons[{C06.GRID_CONFIGS[gi][0]}]', 'fn': 'scn_polygons', 'kwargs': {'gi': gi}})
-        out.append({'name': f'holes keep their slot[{C06.GRID_CONFIGS[gi][0]}]', 'fn': 'scn_validity', 'kwargs': {'gi': gi}})
-    for mi in (1, 3, 6):
+        if gi not in (11, 12):
+            out.append({'name': f'holes keep their slot[{C06.GRID_CONFIGS[gi][0]}]', 'fn': 'scn_validity', 'kwargs': {'gi': gi}})
+    for mi in (1, 3, 6, 10):
         out.append({'name': f'polygons[UGRID {C06.MESH_CONFIGS[mi][0]}]', 'fn': 'scn_mesh', 'kwargs': {'mi': mi}})
     for ci, cfg in enumerate(CENTRE_CONFIGS):
         out.append({'name': f'face_centres[{cfg[0]} {cfg[1]}]', 'fn': 'scn_centres', 'kwargs': {'ci': ci}})
@@ -106,7 +110,7 @@ def scn_centres(c, ci):
     elif conv_name == 'ShocSimple':
         ex, ey = V['longitude'].arr.fn(idx), V['latitude'].arr.fn(idx)
     elif conv_name == 'ShocStandard':
-        ex, ey = V['x_centre'].arr.fn(idx), V['y_centre'].arr.fn(idx)
+        ex, ey = V['x_centre'].arr.fn((idx[1], idx[0]) if 'face' in kw.get('x_transposed', ()) else idx), V['y_centre'].arr.fn(idx)
     else:
         ex, ey = V['face_x'].arr.fn(idx), V['face_y'].arr.fn(idx)
     c.check('face centre n is the centre coordinate of cell n itself (x)', _same(cen.at((n, 0)), ex))
